@@ -287,10 +287,135 @@ def check_composite_handler(acc, rng, tag=None):
     setting.reset()
 
 
+def check_cell_veto_composite(acc, rng, tag=None):
+    """The same balance equation through the real CompositeObjectCellVetoEventHandler (real periodic cells, real dipole
+    estimator), with and without the optional `potential` argument: the table must belong to the CONFIGURED factor
+    potential. Both dipoles are made the active composite object in turn; the confirmation draw is scripted to confirm,
+    the lifting draw is integrated."""
+    import contextlib
+    import io
+    import jellyfysh.setting as setting
+    from vf.jf import init_setting
+    from jellyfysh.activator.internal_state.cell_occupancy.cells.cuboid_periodic_cells import CuboidPeriodicCells
+    from jellyfysh.base.node import Node
+    from jellyfysh.base.time import Time
+    from jellyfysh.base.unit import Unit
+    from jellyfysh.estimator.dipole_inner_point_estimator import DipoleInnerPointEstimator
+    from jellyfysh.event_handler.composite_object_cell_veto_event_handler import CompositeObjectCellVetoEventHandler
+    from jellyfysh.potential.inverse_power_potential import InversePowerPotential
+    L = 1.0
+    init_setting(3, [L] * 3, cubic=True, roots=2, per_root=2, levels=2)
+    cps = [rng.randint(4, 5) for _ in range(3)]
+    cells = CuboidPeriodicCells(cells_per_side=cps, neighbor_layers=1)
+    p_est = 1.0
+    explicit = rng.choice([None, 2.0, 3.0, 6.0])
+    power = p_est if explicit is None else explicit
+    d = rng.randrange(3)
+    vel = [0.0] * 3
+    vel[d] = 1.0
+    centre = [[rng.uniform(0.4, 0.6) for _ in range(3)]]
+    centre.append([c + rng.uniform(0.12, 0.3) * rng.choice([-1, 1]) for c in centre[0]])
+    pos = {(r, a): [centre[r][j] + rng.uniform(-0.03, 0.03) for j in range(3)] for r in range(2) for a in range(2)}
+    c0 = rng.choice([1.0, 0.7, 2.0])
+    ch = {(0, 0): c0, (0, 1): -c0, (1, 0): c0, (1, 1): -c0}
+    ids = sorted(pos)
+    q = {}
+    for i in ids:
+        t = 0.0
+        for j in ids:
+            if j[0] != i[0]:
+                dx = [pos[i][m] - pos[j][m] for m in range(3)]
+                t += -power * ch[i] * ch[j] * dx[d] / math.sqrt(sum(c * c for c in dx)) ** (power + 2)
+        q[i] = t
+    tot = sum(abs(v) for v in q.values())
+    if tot == 0 or min(abs(v) for v in q.values()) < 1e-9 * tot:
+        setting.reset()
+        return
+    wit = {"kind": "cell_veto_composite", "d": d, "explicit_power": explicit, "cells_per_side": cps, "rerun": tag,
+           "positions": {str(i): pos[i] for i in ids}}
+
+    def branch(r, active):
+        mine = [i for i in ids if i[0] == r]
+        c = [sum(pos[i][m] for i in mine) / 2 for m in range(3)]
+        act = active is not None and active[0] == r
+        root = Node(Unit(identifier=(r,), position=c, charge=None, velocity=[v / 2 for v in vel] if act else None,
+                         time_stamp=Time.from_float(0.0) if act else None), weight=1.0)
+        for i in mine:
+            a = i == active
+            root.add_child(Node(Unit(identifier=i, position=list(pos[i]), charge={"q": ch[i]},
+                                     velocity=list(vel) if a else None, time_stamp=Time.from_float(0.0) if a else None),
+                                weight=0.5))
+        return root
+
+    for scheme in SCHEMES:
+        est = DipoleInnerPointEstimator(potential=InversePowerPotential(power=p_est, prefactor=1.0), dipole_separation=0.05,
+                                        prefactor=1.5, points_per_side=2, dipole_charge=c0)
+        kw = {} if explicit is None else {"potential": InversePowerPotential(power=explicit, prefactor=1.0)}
+        h = CompositeObjectCellVetoEventHandler(estimator=est, lifting=_cls(scheme)(), charge="q", **kw)
+        with contextlib.redirect_stdout(io.StringIO()):
+            h.initialize(cells, 1)
+        inflow = {i: 0.0 for i in ids}
+        ok = True
+        for active in ids:
+            if not q[active] > 0:
+                continue
+
+            def f(u):
+                phase = ["time"]
+                calls = [0]
+
+                def uniform(a, b):
+                    if phase[0] == "time":
+                        return a + (b - a) * 0.5          # alias table
+                    calls[0] += 1
+                    return a if calls[0] == 1 else a + (b - a) * u    # confirmation (confirm), then the lifting draw
+                old = (random.uniform, random.expovariate, random.choice)
+                random.uniform, random.expovariate, random.choice = uniform, (lambda lam: 0.0), (lambda seq: seq[0])
+                try:
+                    h.send_event_time([branch(active[0], active)])
+                    phase[0] = "out"
+                    out = h.send_out_state(branch(1 - active[0], None))
+                finally:
+                    random.uniform, random.expovariate, random.choice = old
+                new = [leaf.value.identifier for b in out for leaf in b.children if leaf.value.velocity is not None]
+                return new[0] if len(new) == 1 else ("?", len(new))
+            meas, answers, ends, nev = measure_1d(f, grid=64)
+            acc.count("cell_veto_composite_active_units_integrated")
+            acc.count("selections_evaluated", nev)
+            for kk in answers:
+                if kk not in q or not q[kk] < 0:
+                    acc.violation("C05:nonnegative-derivative-selected",
+                                  f"{scheme} through the composite-object cell-veto handler (potential power {power}, "
+                                  f"{'explicit' if explicit else 'from the estimator'}): active {active}, selected {kk} with "
+                                  f"factor derivative {q.get(kk)!r}", dict(wit, scheme=scheme, active=list(active)))
+                    ok = False
+            for kk, m in meas.items():
+                if kk in inflow:
+                    inflow[kk] += q[active] * m
+        if not ok:
+            continue
+        acc.case(("cell_veto_composite", scheme, explicit, d, tuple(pos[ids[0]])), nontrivial=True)
+        acc.count("cell_veto_composite_tables_balanced_checked")
+        if explicit is not None:
+            acc.count("cell_veto_composite_tables_with_explicit_potential")
+        for i in ids:
+            want = -q[i] if q[i] < 0 else 0.0
+            if abs(inflow[i] - want) > 1e-7 * tot:
+                acc.violation("C05:flow-imbalance",
+                              f"{scheme} through the composite-object cell-veto handler (factor potential r^-{power}, "
+                              f"{'given explicitly' if explicit else 'taken from the estimator'}; direction {d}): inflow of unit "
+                              f"{i} is {inflow[i]!r}, its negative factor derivative is {want!r} (table {q})",
+                              dict(wit, scheme=scheme))
+                break
+    setting.reset()
+
+
 def shard_handler(acc, prop="C05", seed=0, shard=0, n=4):
     rng = core.rng_for(prop, seed, "handler", shard)
     for _ in range(n):
         check_composite_handler(acc, rng, {"seed": seed, "shard": shard, "n": n})
+    for _ in range(max(1, n // 3)):
+        check_cell_veto_composite(acc, rng, {"seed": seed, "shard": shard, "n": n})
 
 
 def shard(acc, prop="C05", seed=0, shard=0, n=50):
@@ -339,11 +464,13 @@ def main(ctx):
     ctx.require("active_units_integrated", 2000)
     ctx.require("composite_handler_tables_balanced_checked", 30)
     ctx.require("composite_handler_tables_with_active_units_in_both_objects", 15)
+    ctx.require("cell_veto_composite_tables_balanced_checked", 10)
+    ctx.require("cell_veto_composite_tables_with_explicit_potential", 5)
 
 
 def replay(acc, w):
     x = w["witness"]
-    if x.get("kind") == "composite_handler":
+    if x.get("kind") in ("composite_handler", "cell_veto_composite"):
         shard_handler(acc, **x["rerun"])
         return
     if "table" not in x:
